@@ -96,6 +96,19 @@ add(
     "DESIGN.md 6/C05",
 )
 
+add(
+    "C10",
+    "exploration",
+    "Real Tuner + UserBlackboxBackend on generated tables (monotone / noisy / tiny / huge time columns, 1-3 seeds), generated delays, "
+    "sleep times, workers, checkpointing and max_resource_attr settings, all model-free scheduler families; a reference re-computation "
+    "(ref_sim) from the table and the observed start/resume events must reproduce every handed result: values, consecutive levels, one "
+    "seed per trial, st_tuner_time, monotone clock, sleeps charged once. 2e4 runs quick, 3e5 thorough.",
+    "Harness-owned wall clock (fake time module seen by time keeper, tuner, status, results callback); the training script's checkpoint "
+    "directory is created by the harness; per-trial seed inferred from values when the back-end seed is None.",
+    "property-based testing (Hypothesis choice tape driving the real Tuner in the simulator): differential against a table-replay reference model",
+    "DESIGN.md 6/C10",
+)
+
 NOT_YET = {}
 
 ALL = [f"C{i:02d}" for i in range(1, 21)]
